@@ -27,7 +27,7 @@ import (
 //
 //	frame: (h sid end ((#name #value) ...) pieces)   HEADERS split into `pieces`+1 frames (CONTINUATION)
 //	       (d sid end #payload) | (dz sid end length fill)     DATA (dz: `length` bytes of `fill`)
-//	       (o kind sid)                                         settings | ping | window | priority | rst
+//	       (o kind sid)                                         settings | ping | window | priority | rst | goaway | table0 | table64 | settings-misc
 //
 // observation: ((items ((req #method (hdr ...) datalen #first64) (resp status (hdr ...) datalen #first64) variant) ...) (left q r))
 func init() {
@@ -92,6 +92,14 @@ func encH2Half(isClient bool, frames sx.Sx) []byte {
 				fr.WritePriority(sid, http2.PriorityParam{StreamDep: 0, Weight: 10})
 			case "rst":
 				fr.WriteRSTStream(sid, http2.ErrCodeCancel)
+			case "goaway": // graceful: the streams up to the last id are still completed
+				fr.WriteGoAway(1<<31-1, http2.ErrCodeNo, []byte("bye"))
+			case "table0": // the sender's DEcoder table (limits the peer's encoder, not this half's)
+				fr.WriteSettings(http2.Setting{ID: http2.SettingHeaderTableSize, Val: 0})
+			case "table64":
+				fr.WriteSettings(http2.Setting{ID: http2.SettingHeaderTableSize, Val: 64})
+			case "settings-misc":
+				fr.WriteSettings(http2.Setting{ID: http2.SettingMaxConcurrentStreams, Val: 7}, http2.Setting{ID: http2.SettingInitialWindowSize, Val: 1 << 20})
 			}
 		}
 	}
@@ -282,7 +290,7 @@ func genHttp2Conv(r *Rand, tier string, emit func(sx.Sx)) {
 				out = append(out, streams[s][idx[s]])
 				idx[s]++
 				if r.Chance(15) {
-					kinds := []string{"settings", "ping", "window", "priority", "rst"}
+					kinds := []string{"settings", "ping", "window", "priority", "rst", "goaway", "table0", "table64", "settings-misc"}
 					k := kinds[r.Intn(len(kinds))]
 					sid := 0
 					if k == "window" && r.Bool() || k == "priority" {
@@ -364,7 +372,7 @@ func genHttp2Raw(r *Rand, tier string, emit func(sx.Sx)) {
 				case 4:
 					fs = append(fs, sx.L(sx.A("h"), sx.N(sid), sx.Bool(end), sx.L(kv("x-trailer", "t"), kv("grpc-status", "0")), sx.N(0)))
 				case 5:
-					fs = append(fs, sx.L(sx.A("o"), sx.A([]string{"settings", "ping", "window", "priority", "rst"}[r.Intn(5)]), sx.N(sid)))
+					fs = append(fs, sx.L(sx.A("o"), sx.A([]string{"settings", "ping", "window", "priority", "rst", "goaway", "table0", "table64", "settings-misc"}[r.Intn(9)]), sx.N(sid)))
 				}
 			}
 			return fs
